@@ -180,6 +180,17 @@ Proof.
   - simpl. intuition discriminate.
 Qed.
 
+Lemma ex_ns_bit a i : ns_bit ex_ns a = Some i -> i = a + 1.
+Proof.
+  unfold ex_ns. cbn -[Z.eqb Z.add]. intro H.
+  destruct (Z.eqb 0 a) eqn:E0; [apply Z.eqb_eq in E0; inversion H; lia|].
+  destruct (Z.eqb 1 a) eqn:E1; [apply Z.eqb_eq in E1; inversion H; lia|].
+  destruct (Z.eqb 2 a) eqn:E2; [apply Z.eqb_eq in E2; inversion H; lia|].
+  destruct (Z.eqb 3 a) eqn:E3; [apply Z.eqb_eq in E3; inversion H; lia|].
+  destruct (Z.eqb 4 a) eqn:E4; [apply Z.eqb_eq in E4; inversion H; lia|].
+  discriminate.
+Qed.
+
 Lemma ex_mrca_hyps :
   ns_inj ex_ns /\ (forall a, In a [2; 3] -> member ex_ns a) /\ members_ok ex_ns ex_tree /\ NoDup (ids ex_tree)
   /\ find_node 0 (tree_after ex_tree None true) = Some ex_tree.
@@ -187,12 +198,10 @@ Proof.
   assert (M : forall a, In a [0; 1; 2; 3; 4] -> member ex_ns a).
   { intros a H. simpl in H. exists (a + 1). destruct H as [<-|[<-|[<-|[<-|[<-|[]]]]]]; split; (reflexivity || lia). }
   split; [|split; [|split; [|split]]].
-  - intros a b i Ha Hb. unfold ex_ns in *. simpl in Ha, Hb.
-    repeat match type of Ha with context [Z.eqb ?u a] => destruct (Z.eqb u a) eqn:?; [apply Z.eqb_eq in Heqb0|] end.
-    all: admit.
+  - intros a b i Ha Hb. apply ex_ns_bit in Ha. apply ex_ns_bit in Hb. lia.
   - intros a H. apply M. simpl in *. tauto.
   - intros a H. apply M. apply has_In in H. simpl in H.
     destruct H as [H|[H|[H|[H|[H|[]]]]]]; inversion H; simpl; tauto.
   - unfold ids. simpl. repeat (constructor; [simpl; intuition discriminate|]). constructor.
   - reflexivity.
-Admitted.
+Qed.
